@@ -365,9 +365,13 @@ class FakeAioWS(NullHandler):
         self.peer_closed = True
         self._wake()
 
+    close_fut = None
+
     def _wake(self):
         if self.fut is not None and not self.fut.done():
             self.fut.set_result(None)
+        if self.close_fut is not None and not self.close_fut.done():
+            self.close_fut.set_result(None)
 
     slow = 0
 
@@ -408,11 +412,28 @@ class FakeAioWS(NullHandler):
         return _real_aiohttp.WSMessage(_real_aiohttp.WSMsgType.TEXT, data,
                                        None)
 
+    CLOSE_TIMEOUT = 10.0     # aiohttp's default for ws_connect(timeout=)
+
     async def close(self, *a, **kw):
         if not self.closed:
             self.closed = True
             self.conn.close()
             self._wake()
+            if self.slow and not self.peer_closed:
+                # aiohttp sends its close frame and then waits for the
+                # peer's, for up to the close timeout: the calling task is
+                # suspended meanwhile
+                self.net.fault('ws_close_waits_for_peer')
+                t_end = self.loop.time() + self.CLOSE_TIMEOUT
+                while not self.peer_closed and self.loop.time() < t_end:
+                    self.close_fut = self.loop.create_future()
+                    try:
+                        await asyncio.wait_for(self.close_fut,
+                                               t_end - self.loop.time())
+                    except asyncio.TimeoutError:
+                        break
+                    finally:
+                        self.close_fut = None
         return True
 
 
